@@ -482,7 +482,7 @@ def exR2 : Rendering :=
     items := exItems2, oboEnd := [], hdr := "#hdr".toList, grows := exGrows.reverse, geneEnd := [],
     drows := exDrows.reverse, hpoaEnd := ['\n'] }
 
-private theorem exItems_ok : ∀ i ∈ exItems ++ exItems2, i.Ok := by
+theorem exItems_ok : ∀ i ∈ exItems ++ exItems2, i.Ok := by
   have neutralDef : Neutral "def".toList := by unfold Neutral; decide
   have neutralComment : Neutral "comment".toList := by unfold Neutral; decide
   intro i hi
@@ -509,7 +509,7 @@ private theorem exItems_ok : ∀ i ∈ exItems ++ exItems2, i.Ok := by
     intro p hp; simp at hp; subst hp; exact ⟨by decide, by decide⟩
   · exact ⟨by decide, by simp, by simp, ⟨by decide, by simp, by simp⟩⟩
 
-private theorem exGrows_ok : ∀ r ∈ exGrows, r.Ok := by
+theorem exGrows_ok : ∀ r ∈ exGrows, r.Ok := by
   intro r hr
   simp only [exGrows, List.mem_cons, List.not_mem_nil, or_false] at hr
   rcases hr with rfl | rfl
@@ -518,7 +518,7 @@ private theorem exGrows_ok : ∀ r ∈ exGrows, r.Ok := by
   · exact ⟨by decide, by decide, ⟨by decide, by decide, by decide⟩, ⟨by decide, by decide, by decide⟩,
       Or.inr ⟨_, rfl⟩, by decide, by decide⟩
 
-private theorem exDrows_ok : ∀ r ∈ exDrows, r.Ok := by
+theorem exDrows_ok : ∀ r ∈ exDrows, r.Ok := by
   intro r hr
   simp only [exDrows, List.mem_cons, List.not_mem_nil, or_false] at hr
   rcases hr with rfl | rfl | rfl | rfl
@@ -530,14 +530,14 @@ private theorem exDrows_ok : ∀ r ∈ exDrows, r.Ok := by
   · exact ⟨⟨by decide, by decide, by decide⟩, ⟨by decide, by decide, by decide⟩, ⟨by decide, by decide, by decide⟩,
       ⟨'1', by decide, by decide⟩, Or.inl rfl, by decide, by decide⟩
 
-private theorem exR1_ok : exR1.Ok :=
+theorem exR1_ok : exR1.Ok :=
   { y1 := by decide, y2 := by decide, y3 := by decide, y4 := by decide, m1 := by decide, m2 := by decide,
     d1 := by decide, d2 := by decide, pre := by simp [exR1], header := by simp [exR1],
     items := fun i hi => exItems_ok i (List.mem_append_left _ hi), oboEnd := Or.inr (Or.inl rfl),
     hdrLine := by decide, hdr := Or.inr (Or.inl (by decide)), grows := exGrows_ok,
     geneEnd := Or.inr ⟨rfl, by decide⟩, drows := exDrows_ok, hpoaEnd := Or.inl rfl }
 
-private theorem exR2_ok : exR2.Ok :=
+theorem exR2_ok : exR2.Ok :=
   { y1 := by decide, y2 := by decide, y3 := by decide, y4 := by decide, m1 := by decide, m2 := by decide,
     d1 := by decide, d2 := by decide, pre := by simp [exR2],
     header := by
@@ -550,7 +550,7 @@ private theorem exR2_ok : exR2.Ok :=
 
 /-- same facts: the stanzas of the second file are a permutation of those of the first (although the
 block lists differ in length, labels and extra tags), rows reversed, same release date -/
-private theorem exPerm : exR1.terms.Perm exR2.terms ∧ exR1.grows.Perm exR2.grows ∧ exR1.drows.Perm exR2.drows ∧
+theorem exPerm : exR1.terms.Perm exR2.terms ∧ exR1.grows.Perm exR2.grows ∧ exR1.drows.Perm exR2.drows ∧
     exR1.version = exR2.version ∧ exR1.terms ≠ exR2.terms :=
   ⟨by
     show (itemsTerms exItems).Perm (itemsTerms exItems2)
@@ -558,7 +558,7 @@ private theorem exPerm : exR1.terms.Perm exR2.terms ∧ exR1.grows.Perm exR2.gro
     exact (List.reverse_perm _).symm,
    (List.reverse_perm _).symm, (List.reverse_perm _).symm, rfl, by decide⟩
 
-private theorem exWF : WFfacts exR1.terms exR1.grows exR1.drows :=
+theorem exWF : WFfacts exR1.terms exR1.grows exR1.drows :=
   { small := by decide
     isa := by unfold IsaClosed; decide
     acyclic := ⟨fun j => if j = 1 then 0 else if j = 118 then 1 else 2, by decide⟩
@@ -572,12 +572,12 @@ private theorem exWF : WFfacts exR1.terms exR1.grows exR1.drows :=
     root := by unfold IsStanza; decide
     phenotype := by unfold IsStanza; decide }
 
-private theorem exFun : Functional (stanzaFacts exR1.terms) := by unfold Functional; decide
+theorem exFun : Functional (stanzaFacts exR1.terms) := by unfold Functional; decide
 
 /-- one name per gene / disease id, stated on the rows (`namesFunctional_fileOps`) -/
 def exNameOf (k : Kind) (_ : Nat) : List Char :=
   match k with | .gene => "G1".toList | .omim => "D 7".toList | .orpha => "O 7".toList
-private theorem exNames : NamesFunctional exNameOf (fileOps exR1.grows exR1.drows) := by
+theorem exNames : NamesFunctional exNameOf (fileOps exR1.grows exR1.drows) := by
   apply namesFunctional_fileOps
   · decide
   · intro orpha d name q h tail hm
